@@ -393,6 +393,12 @@ func (w *World) lenOfKey(v ssa.Value, k sliceKey) (int64, bool) {
 // lenOfKeyLoad also returns the load whose length is taken (nil for registers).
 func (w *World) lenOfKeyLoad(v ssa.Value, k sliceKey) (int64, ssa.Value, bool) {
 	r, c := rootOffset(v)
+	// the length a slice was made with is its length: for x = make(_, n), n itself reads len(x)
+	if mk, isMk := k.reg.(*ssa.MakeSlice); isMk && r == mk.Len {
+		if _, isK := constInt(r); !isK {
+			return c, nil, true
+		}
+	}
 	call, ok := r.(*ssa.Call)
 	if !ok || calleeName(call) != "builtin.len" {
 		return 0, nil, false
@@ -662,6 +668,13 @@ func (w *World) prove(g boundsGoal, lib libFacts, depth int) (bool, string) {
 		}
 		if !g.upperIncl && w.rangeIndexIntoMake(g.index, g.slice) {
 			return true, "range index over xs into make(…, len(xs))"
+		}
+		// a slice bound one past a position: 0 ≤ r+1 ≤ len(x) follows from 0 ≤ r < len(x), i.e. from r
+		// being an index of x (the tail x[r+1:] behind an element x[r])
+		if _, rIsPhi := r.(*ssa.Phi); rIsPhi && g.upperIncl && c == 1 && depth < 3 {
+			if okP, whyP := w.prove(boundsGoal{fn: fn, site: g.site, slice: g.slice, index: r}, lib, depth+1); okP {
+				return true, "one past an index of the slice: " + whyP
+			}
 		}
 		// φ index: prove every alternative at its own edge
 		if phi, isPhi := g.index.(*ssa.Phi); isPhi && depth < 3 {
@@ -1190,9 +1203,15 @@ func (w *World) provePhiIndex(g boundsGoal, phi *ssa.Phi, lib libFacts, depth in
 		return true
 	}
 	ok := rec(phi)
-	// the length must not shrink between the φ and the use: only for stable keys
+	// the length must not shrink between the φ and the use: only for stable keys. A re-assignment of
+	// the slice from which control cannot arrive at the use any more (the compaction that follows the
+	// use in straight-line code) is not in between; one that can (earlier in the block, or around a
+	// loop) is.
 	if ok {
-		if stable, why := w.keyStable(g.fn, w.keyOf(g.slice), nil); !stable {
+		canArrive := func(st ssa.Instruction) bool {
+			return st == g.site || reach(g.fn, st, func(j ssa.Instruction) bool { return j == g.site }, nil, nil) != nil
+		}
+		if stable, why := w.keyStable(g.fn, w.keyOf(g.slice), canArrive); !stable {
 			return false, "φ index alternatives hold but " + why
 		}
 	}
@@ -1354,6 +1373,15 @@ func (w *World) lenFromDef(v ssa.Value, lib libFacts, fn *ssa.Function, site ssa
 	case *ssa.ChangeType:
 		return w.lenFromDef(x.X, lib, fn, site)
 	case *ssa.UnOp:
+		// a location read back right after it was written (same block, nothing in between that may
+		// change it) holds the value written: `x.f = append(x.f, e)` followed by `x.f[len(x.f)-1]`
+		if x.Op == token.MUL {
+			if sv := w.storedJustBefore(x); sv != nil {
+				if l, h, why := w.lenFromDef(sv, lib, fn, site); why != "" {
+					return l, h, "read back after the store of: " + why
+				}
+			}
+		}
 		// a field with a single make(n) writer in the whole program
 		if x.Op == token.MUL {
 			if fa, ok := x.X.(*ssa.FieldAddr); ok {
@@ -1364,6 +1392,40 @@ func (w *World) lenFromDef(v ssa.Value, lib libFacts, fn *ssa.Function, site ssa
 		}
 	}
 	return lo, hi, ""
+}
+
+// storedJustBefore: the value that the load of a field or local cell reads because the same location
+// (same access path) was stored to earlier in the load's block and no instruction between that store
+// and the load may change it (another store to the field through any base, a call that stores to it).
+func (w *World) storedJustBefore(load *ssa.UnOp) ssa.Value {
+	key := w.keyOf(load)
+	if key.reg != nil || (key.cell == nil && key.fld == nil) {
+		return nil
+	}
+	flds := pathFields(load)
+	b := load.Block()
+	if b == nil {
+		return nil
+	}
+	for i := idxIn(b, load) - 1; i >= 0; i-- {
+		ins := b.Instrs[i]
+		if st, ok := ins.(*ssa.Store); ok {
+			switch a := st.Addr.(type) {
+			case *ssa.FieldAddr:
+				if key.cell == nil && fieldVar(a) == key.fld && rootedPath(a) == key.path {
+					return st.Val
+				}
+			case *ssa.Alloc:
+				if key.cell != nil && ssa.Value(a) == key.cell {
+					return st.Val
+				}
+			}
+		}
+		if w.killsKey(ins, key, flds) {
+			return nil
+		}
+	}
+	return nil
 }
 
 // singleMakeLen: every store to the field in the repo stores make(_, const n) (same n).
